@@ -72,6 +72,9 @@ def cases(tier, seed):
     seeds = [0, 1, 2] if tier == 'quick' else list(range(8))
     if seed not in seeds:
         seeds.append(seed % 4294967295)
+    for pair in itertools.permutations(TWINS, 2):
+        for mode in ('seq', 'resumed', 'j2'):
+            yield ['twins', list(pair), mode]
     yield ['hashseeds', 3 if tier == 'quick' else 4, seeds]
 
 
@@ -292,6 +295,49 @@ def run_e2e(n, gi):
     return evals, nt, viol
 
 
+TWINS = ['a.b', 'a_b', 'ab', 'x[y]', 'p+q', 'a|b', 'a.', 'a$']
+
+
+def run_twins(pair, mode):
+    """Two layers whose names differ in a character that means something to a
+    regex: each one must still run exactly once, as one group, in order."""
+    names = list(pair)
+    layers = [{'n': nm, 'b': [], 'k': 'i', 'h': list(worlds.HOOKS_SD)} for nm in names]
+    tests = []
+    for i, nm in enumerate(names):
+        tests += [{'n': 't%d' % i, 'l': nm, 's': 'pass'}, {'n': 't%db' % i, 'l': nm, 's': 'pass'}]
+    argv = []
+    if mode == 'resumed':
+        layers.insert(0, {'n': 'A', 'b': [], 'k': 'i', 'h': list(worlds.HOOKS_SD),
+                          'f': {'tearDown': 'NIE'}})
+        tests.append({'n': 'tA', 'l': 'A', 's': 'pass'})
+    elif mode == 'j2':
+        argv = ['-j2']
+    res = runrt.run_world({'layers': layers, 'tests': tests}, argv, probe=False)
+    objs = {nm: worlds_inst(nm) for nm in names}
+    ref = ['vtw.tests.' + o.__name__ for o in R.order_by_bases([objs[nm] for nm in names])]
+    want = (['vtw.tests.A'] if mode == 'resumed' else []) + ref
+    hdr = [h for h in runrt.HDR_RE.findall(res.text)]
+    viol = []
+    where = (names, mode)
+    if hdr != want and not (mode == 'j2' and hdr[1:] == want):
+        viol.append(('header_sequence', where, (hdr, want)))
+    groups = []
+    for ev in res.trace:
+        if ev[1] == 't' and ev[3] == 'body':
+            k = (ev[0], ev[2][:2])
+            if not groups or groups[-1] != k:
+                groups.append(k)
+    if sorted(g[1] for g in groups) != sorted({t['n'][:2] for t in tests}):
+        viol.append(('layer_not_run_once_as_one_group', where, groups))
+    return 1, 1, viol
+
+
+def worlds_inst(name):
+    from vt import worldrt
+    return worldrt.InstLayer(name, 'vtw.tests', ())
+
+
 def digest_small(nmax):
     """Digest of order_by_bases results for all labelled graphs n<=nmax
     (names only, so comparable between interpreters)."""
@@ -318,6 +364,8 @@ def run_case(case):
         evals, nt, vs = run_ordered_layers(case[1], case[2])
     elif kind == 'e2e':
         evals, nt, vs = run_e2e(case[1], case[2])
+    elif kind == 'twins':
+        evals, nt, vs = run_twins(case[1], case[2])
     else:
         nmax, seeds = case[1], case[2]
         digs = {}
